@@ -185,3 +185,91 @@ Proof.
   split; [intros s e [H|[H|[H|[]]]]; inversion H; lia|]. split; [cbn; lia|]. split; [cbn; lia|].
   split; [intros s e [H|[H|[]]]; inversion H; lia|reflexivity].
 Qed.
+
+(* ====================================================================================
+   TRANSLATOR TIE.  coq/gen/RunsGen.v is regenerated on every run from the CURRENT source of util.ts, edge_rising,
+   edge_falling, epochs (pad == 0 path), smooth_epochs, debounce_epochs by translate/pyruns2coq.py (fail closed,
+   statement by statement, in the NumPy vocabulary of Runs/NumpyPrims.v).  The generated definitions EQUAL the model
+   the theorems above are about, for all inputs; so those theorems hold of what the source says now.
+   Proofs in Runs/ProofsTie.v.  `option`: None = the code raises (or, for the loops, runs out of fuel). *)
+From PV Require Import Runs.NumpyPrims gen.RunsGen Runs.ProofsTie.
+
+(* ts(edge_rising(x)) / ts(edge_falling(x)) as the source computes them are the model's edge lists *)
+Theorem C18_source_edge_rising_tie : forall x, gen_ts (gen_edge_rising x) = rising x.
+Proof. exact gen_edge_rising_tie. Qed.
+Print Assumptions C18_source_edge_rising_tie.
+
+Theorem C18_source_edge_falling_tie : forall x, gen_ts (gen_edge_falling x) = falling x.
+Proof. exact gen_edge_falling_tie. Qed.
+Print Assumptions C18_source_edge_falling_tie.
+
+(* the masks have NumPy's length max(len x, 1) (np.r_[0, diff] of an empty array has one element) *)
+Theorem C18_source_edge_mask_length : forall x,
+  zlen (gen_edge_rising x) = Z.max (zlen x) 1 /\ zlen (gen_edge_falling x) = Z.max (zlen x) 1.
+Proof. exact gen_edge_mask_length. Qed.
+Print Assumptions C18_source_edge_mask_length.
+
+(* epochs(x) (pad = 0): for EVERY boolean list, including where it raises *)
+Theorem C18_source_epochs_tie : forall x, gen_epochs x = epochs_model x.
+Proof. exact gen_epochs_tie. Qed.
+Print Assumptions C18_source_epochs_tie.
+
+(* smooth_epochs: the sort and the two nested while loops, for every list of integer pairs (no hypothesis on the
+   intervals) and every fuel above the number of intervals: the loops terminate within it and nothing raises *)
+Theorem C18_source_smooth_tie : forall fuel l, (length l < fuel)%nat ->
+  gen_smooth_epochs fuel l = Some (smooth_model l).
+Proof. exact gen_smooth_epochs_tie. Qed.
+Print Assumptions C18_source_smooth_tie.
+
+(* ... the fuel hypothesis is needed: fuel = number of intervals is not enough *)
+Theorem C18_source_smooth_fuel_refuted : exists fuel l,
+  (length l <= fuel)%nat /\ gen_smooth_epochs fuel l <> Some (smooth_model l).
+Proof. exact gen_smooth_epochs_fuel_refuted. Qed.
+Print Assumptions C18_source_smooth_fuel_refuted.
+
+(* debounce_epochs: every list of integer pairs, every (also negative) limit *)
+Theorem C18_source_debounce_tie : forall fuel d l, (length l < fuel)%nat ->
+  gen_debounce_epochs fuel l d = Some (debounce_model d l).
+Proof. exact gen_debounce_epochs_tie. Qed.
+Print Assumptions C18_source_debounce_tie.
+
+Theorem C18_source_debounce_fuel_refuted : exists fuel d l,
+  (length l <= fuel)%nat /\ gen_debounce_epochs fuel l d <> Some (debounce_model d l).
+Proof. exact gen_debounce_epochs_fuel_refuted. Qed.
+Print Assumptions C18_source_debounce_fuel_refuted.
+
+(* the property theorems restated over the GENERATED definitions *)
+Theorem C18_source_epochs_are_runs : forall x, gen_epochs x = Some (runs x).
+Proof. exact source_epochs_are_runs. Qed.
+Print Assumptions C18_source_epochs_are_runs.
+
+Theorem C18_source_epochs_maximal : forall x, exists r, gen_epochs x = Some r /\
+  (forall s e, In (s, e) r <-> is_max_run x s e) /\ separated 0 r.
+Proof. exact source_epochs_maximal. Qed.
+Print Assumptions C18_source_epochs_maximal.
+
+Theorem C18_source_smooth_cover : forall fuel l, (length l < fuel)%nat -> nonempty_ivs l ->
+  exists r, gen_smooth_epochs fuel l = Some r /\ (forall t, covered r t <-> covered l t) /\ separated 0 r.
+Proof. exact source_smooth_cover. Qed.
+Print Assumptions C18_source_smooth_cover.
+
+Theorem C18_source_debounce_spec : forall fuel d l, (length l < fuel)%nat -> 0 <= d -> separated 0 l ->
+  gen_debounce_epochs fuel l d = Some (debounce_spec d l).
+Proof. exact source_debounce_spec. Qed.
+Print Assumptions C18_source_debounce_spec.
+
+(* the composition the package uses: debounce_epochs(epochs(x), d) *)
+Theorem C18_source_pipeline : forall fuel d x, (length x < fuel)%nat -> 0 <= d ->
+  bind (gen_epochs x) (fun r => gen_debounce_epochs fuel r d) = Some (debounce_spec d (runs x)).
+Proof. exact source_pipeline. Qed.
+Print Assumptions C18_source_pipeline.
+
+(* non-vacuity of the tie hypotheses *)
+Example C18_ex6 : (length [(4, 6); (0, 2); (1, 5)] < 4)%nat /\ nonempty_ivs [(4, 6); (0, 2); (1, 5)] /\
+  gen_smooth_epochs 4 [(4, 6); (0, 2); (1, 5)] = Some [(0, 6)].
+Proof. exact tie_ex_smooth. Qed.
+Example C18_ex7 : (length [(0, 1); (3, 8); (10, 14)] < 4)%nat /\ separated 0 [(0, 1); (3, 8); (10, 14)] /\
+  gen_debounce_epochs 4 [(0, 1); (3, 8); (10, 14)] 2 = Some [(3, 14)].
+Proof. exact tie_ex_debounce. Qed.
+Example C18_ex8 : gen_epochs [true; true; false; true] = Some [(0, 2); (3, 4)].
+Proof. exact tie_ex_epochs. Qed.
